@@ -42,6 +42,15 @@ theorem decode_encode (m : Msg) (h : WF m) (rest : Bytes) :
       simp only [decode, encode, size, errText, Option.getD_some, List.cons_append, List.nil_append,
         hsz, ↓reduceIte, hpos, List.take_left', List.drop_left', hv, Nat.mod_eq_of_lt hac]
 
+theorem wfBool_iff (m : Msg) : wfBool m = true ↔ WF m := by
+  cases m with
+  | request r => simp [wfBool, WF]
+  | message m =>
+    rcases m with ⟨ac, e⟩
+    cases e with
+    | none => simp [wfBool, WF]
+    | some s => simp [wfBool, WF, and_assoc]
+
 /-- the case excluded by `WF`: the empty text is encoded like `None` and decodes as `None` -/
 theorem empty_text_not_preserved (ac : Nat) (rest : Bytes) :
     decode (encode (.message ⟨ac % 256, some []⟩) ++ rest) (size (.message ⟨ac % 256, some []⟩))
